@@ -214,3 +214,50 @@ P('C08', 'other',
   'C09-S2..S4, C04-S2..S6, C05-S1..S3, C14-S1/S5, the broker mark loop, the clock range, and agreement of the bar Open/Close row times with '
   'the exchange\'s open/close.')
 TECHNIQUE['C08'] = 'static analysis: wiring/provenance slot table over symbolic summaries (necessary conditions only; numerical agreement not decided)'
+
+
+# ---------------------------------------------------------------------------------------------------------------------------------------------
+# What rounds 2 and 3 changed in the rules (appended to the level texts above; DESIGN.md 9.1 items 11-19 give the reasons).
+COMMON_ADDENDUM = (' Verdict policy: a clause is VIOLATED only when the code is read and deviates; code whose shape the rule does not read (a restructuring into '
+                   'generators, records, deferred callables, vectorised pipelines) makes that clause UNDECIDED (printed, exit 0), never a violation. Rules are anchored '
+                   'on public entry points with the class\'s private helpers, decorators, context managers, dispatch tables, enum members and record objects read '
+                   'through; logical fields kept inside sub-objects or under private names are analysed under the property names that project them.')
+ADDENDA = {
+    'C02': ' Round 3: total_market_value/total_equity are decided as linear sums over all positions whatever helper computes them; deferred mark callables must '
+           'bind the portfolio and asset they were created for (late-binding rule).',
+    'C03': ' Round 3: S2 is decided on the paths of the public Position.transact (sign domain of the fill quantity, through int/floor roundings): a buy/sell '
+           'moves exactly its own side\'s three accumulators by (|q|, |q| x price, commission).',
+    'C04': ' Round 3: the queue key is followed through items()/values() iteration; several execution sites in one loop are allowed as long as each drained order '
+           'is executed exactly once per path; deferred fill callables must bind their order and portfolio.',
+    'C06': ' Round 3: hand-rolled memo tables inside the accessors are classified (sound: keyed by every argument the entry depends on, per instance; unsound or '
+           'class-level: violation; cursors: undecided); the converter\'s column/offset clauses are decided only for pipelines the rule reads.',
+    'C07': ' Round 3: also includes the C18 shared-state and memoisation rules (state shared between instances or runs is data from another point in time).',
+    'C08': ' Round 3: also includes the C18 shared-state and memoisation rules ("reproduces" presupposes that nothing leaks between sessions).',
+    'C09': ' Round 3: S1 also requires that answers which ARE the callee\'s own list (a universe handing out its asset_list) are not changed in place; a sizer '
+           'that keeps its target on the instance must empty it in every call; the update rule of C04 is included (orders fill in the portfolio they were sized against).',
+    'C10': ' Round 3: two-phase sizing (fees estimated in a first loop or comprehension, priced in a second) is read as one; EAFP NaN refusal (int(x / price) under '
+           'except ValueError) is recognised; the data source\'s sentinel rule (C06-S1/S2) and the handler pass-through (C06-S6) are included: an unavailable price must '
+           'reach the sizer as NaN.',
+    'C11': ' Round 3: truncation toward zero is decided on the sign domain of the after-cost dollars on each path (tests on x, sign(x), table dispatch); same '
+           'inclusions as C10.',
+    'C12': ' Round 3: stamps derived from the day itself (day + Timedelta) are exact only after normalize()/floor("D") or a replace() of every component down to '
+           'the nanosecond; a partial replace is reported (the start\'s seconds survive in every event).',
+    'C13': ' Round 2/3: S1-S3 are decision tables of the constructors (what ends up in self.rebalances); list copies and getattr defaults are read through in the '
+           'session\'s frequency table.',
+    'C14': ' Round 3: who-may-call rules are closed under private steps of the allowed caller and under the session\'s set-up closure; S4 "unfiltered" is read off what '
+           'the constructor stores per frequency; the allocation table located by bisect must use bisect_right (latest rebalance at or before the date).',
+    'C16': ' Round 3: S2 is decided on the constructor\'s summary with the buffer object built structurally: key offset and window (maxlen) offset relative to the '
+           'lookback given, for construction and add_asset alike, whoever (signal, base class, buffer class) applies the +1; one deque object stored under many keys '
+           '(dict.fromkeys) is a violation; deferred appends must not close over the loop variable.',
+    'C17': ' Round 3: vectorised running maxima (np.maximum.accumulate, itertools.accumulate(max)) and Series/array wrappers are read through; the reporters\' own '
+           'helper records are read through; get_results must answer with its own dict (a class- or instance-level dict filled in place is shared).',
+    'C18': ' Round 3: a memoised function outside the table is analysed, not rejected: no effect, reads only arguments and construction-time state, identity keying, '
+           'and either an immutable result or a mutable one that no call site (followed through functions that hand it on) mutates or stores; fields written outside '
+           'constructors are state only if read back before being rewritten (write-only records and per-call re-initialised fields are not), sound per-instance memo '
+           'tables are accepted, class-level tables are not.',
+    'C19': ' Round 3: a sound per-instance memo in get_assets is accepted (hits removed, the miss path decided); results of value-returning builtins that are thrown '
+           'away (sorted(xs) as a statement) are reported in the universe/alpha/optimiser modules (and, under their own clauses, in broker, portcon, statistics, '
+           'simulation, signals and rebalance code).',
+}
+for _pid, _m in PROPS.items():
+    _m['explanation'] = _m['explanation'] + ADDENDA.get(_pid, '') + COMMON_ADDENDUM
